@@ -604,6 +604,7 @@ Proof.
     set (ds := Z.of_nat (List.length (w_data wr))) in *.
     set (dl := Z.of_nat (List.length data)) in *.
     set (s := first / wd) in *. set (l := (last - first) / wd) in *.
+    destruct (negb (forallb (in_memory ww) data)); [discriminate|].
     unfold writer_add_segment in H. cbn [w_segs w_data] in H.
     destruct (l <=? 0) eqn:L1; [discriminate|]. apply Z.leb_gt in L1.
     destruct (l <? dl) eqn:L2; [discriminate|]. apply Z.ltb_ge in L2.
@@ -669,6 +670,7 @@ Proof.
     set (ds := Z.of_nat (List.length (w_data wr))) in *.
     set (dl := Z.of_nat (List.length data)) in *.
     set (s := first / wd) in *. set (l := (last - first) / wd) in *.
+    destruct (negb (forallb (in_memory ww) data)); [discriminate|].
     unfold writer_add_segment in H. cbn [w_segs w_data] in H.
     destruct (l <=? 0) eqn:L1; [discriminate|]. apply Z.leb_gt in L1.
     destruct (l <? dl) eqn:L2; [discriminate|]. apply Z.ltb_ge in L2.
